@@ -448,6 +448,18 @@ func (e Engine) Run(t *simrt.Tape, c simrt.Case, x *simrt.Ctx) *simrt.Result {
 					} else {
 						st.LeadPad = pad
 					}
+					// Near a boundary some *other* lexeme often starts at k*B-1, which is the signature of
+					// the dependency's known double-reload defect and would exclude the variant from the
+					// verdict if it fails. Where the alignment itself does not imply that, look for an
+					// equivalent layout (other separators / padding kind) that is free of the signature.
+					if pl.Tok >= 0 && !(d == -1 && role != 1) {
+						if alt, ok := signatureFree(s, st, pl.Tok, role, k*B+d, B); ok {
+							st = alt
+							res.Count("aligned_signature_free", 1)
+						} else {
+							res.Count("aligned_signature_present", 1)
+						}
+					}
 					note := fmt.Sprintf("aligned: %s byte of %s lexeme at %d*B%+d", []string{"first", "last", "look-ahead"}[role], pl.Kind, k, d)
 					if !r.check(st, note) {
 						return res
@@ -527,6 +539,70 @@ func (e Engine) Run(t *simrt.Tape, c simrt.Case, x *simrt.Ctx) *simrt.Result {
 		res.Sample = map[string]any{"kind": c.Label, "mode": s.Mode, "baseline_text": string(baseLay.Text), "baseline_outcome": firstLines(base.spec, 6), "variants_evaluated": r.n}
 	}
 	return res
+}
+
+// signatureFree searches for a layout that puts the chosen byte of token tok at the target offset and
+// in which no lexeme other than the first starts at k*B-1. It returns the first one found.
+func signatureFree(s *gen.Spec, st gen.Style, tok, role, target, B int) (gen.Style, bool) {
+	clean := func(l *gen.Layout) bool {
+		for _, x := range l.Lexemes[1:] {
+			if (x.Start+1)%B == 0 {
+				return false
+			}
+		}
+		return true
+	}
+	for j := 0; j < 10; j++ {
+		alt := st
+		alt.SepSeed = st.SepSeed + uint64(j)*7919
+		alt.PadKind = []int{st.PadKind, 0, 4, 2, 1}[j%5]
+		alt.LeadPad, alt.MidPad = 0, 0
+		l0 := gen.Render(s, alt)
+		if l0.Check(s) != nil {
+			continue
+		}
+		at := -1
+		for _, x := range l0.Lexemes {
+			if x.Tok == tok {
+				at = []int{x.Start, x.Start + x.Len - 1, x.Start + x.Len}[role]
+			}
+		}
+		if at < 0 || target-at < 0 {
+			continue
+		}
+		if st.MidPad > 0 {
+			alt.MidGap, alt.MidPad = st.MidGap, target-at
+			// the gap index refers to kept tokens, which may differ when semicolons are dropped differently
+			gap := 0
+			for gi, idx := range l0.Kept {
+				if idx == tok {
+					gap = gi
+				}
+			}
+			if gap == 0 {
+				alt.MidGap, alt.MidPad, alt.LeadPad = 0, 0, target-at
+			} else {
+				alt.MidGap = gap
+			}
+		} else {
+			alt.LeadPad = target - at
+		}
+		l := gen.Render(s, alt)
+		if l.Check(s) != nil {
+			continue
+		}
+		// the byte must really be where it was asked for
+		okPos := false
+		for _, x := range l.Lexemes {
+			if x.Tok == tok && []int{x.Start, x.Start + x.Len - 1, x.Start + x.Len}[role] == target {
+				okPos = true
+			}
+		}
+		if okPos && clean(l) {
+			return alt, true
+		}
+	}
+	return st, false
 }
 
 func firstLines(s string, n int) string {
